@@ -541,12 +541,30 @@ theorem measureAllLoop_draws {b : Option String} {cs : List Nat} {q : Nat} {s s'
 theorem resetAll_draws {nq : Nat} {s s' : St} (hinv : Inv s) (h : opLatex nq .resetAll s = .ok s') :
     Draws s s' (if nq = 0 then [] else [resetWrites 0 nq]) := by
   simp only [opLatex] at h
-  split at h
-  · cases h
-  · rename_i n
+  cases nq with
+  | zero =>
+    -- no qubits: the range of all qubits is empty, nothing is reserved, drawn or closed
+    obtain ⟨s1, h1, h⟩ := Res.bind_eq_ok.mp h
+    obtain ⟨s2, h2, h3⟩ := Res.bind_eq_ok.mp h
+    have e1 : s1 = s := by
+      unfold startRangeOp at h1
+      obtain ⟨bits, hb, h1⟩ := Res.bind_eq_ok.mp h1
+      have := getBitIndices_none hb
+      subst this
+      simpa using h1.symm
+    subst e1
+    have e2 : s2 = s1 := by simpa [resetLoop] using h2.symm
+    subst e2
+    have e3 : s' = s2 := by
+      unfold endRangeOp at h3
+      rw [hinv.noRange] at h3
+      simpa using h3.symm
+    subst e3
+    simpa using Draws.nil s'
+  | succ n =>
     obtain ⟨sx, hx, _⟩ := Res.bind_eq_ok.mp h
     have hb := getBitIndices_none_ok_of_start hx
-    have h' : (startRangeOp [0, n] none s >>== fun s1 =>
+    have h' : (startRangeOp (List.range (n+1)) none s >>== fun s1 =>
         (fun s1 => resetLoop 0 (n+1) s1) s1 >>== endRangeOp) = .ok s' := by
       simpa [bind_assoc] using h
     have := range_draws (ws := resetWrites 0 (n+1)) hinv hb (by simp)
@@ -677,13 +695,20 @@ theorem setBarrier_draws {q : List Nat} {s s' : St} (hinv : Inv s) (h : setBarri
   split at h
   · cases h
   · split at h
-    · cases h
-    · rename_i rs hrs
-      rw [hrs]
-      have d0 : Draws s (addColumn s) [] :=
-        Draws.of_trace_nil (Trace.single (Step.col hinv.noRange)) rfl rfl
-      have := d0.trans (barrierLoop_draws (inv_addColumn hinv) h)
-      simpa using this
+    · -- a barrier on no qubits draws nothing
+      rename_i he
+      injection h with h; subst h
+      have : q = [] := by simpa using he
+      subst this
+      simpa [getRanges, sortNat] using Draws.nil s
+    · split at h
+      · cases h
+      · rename_i rs hrs
+        rw [hrs]
+        have d0 : Draws s (addColumn s) [] :=
+          Draws.of_trace_nil (Trace.single (Step.col hinv.noRange)) rfl rfl
+        have := d0.trans (barrierLoop_draws (inv_addColumn hinv) h)
+        simpa using this
 
 /-- **The reference drawing of an operation**: its stages (each a list of (row, symbol) that must sit
 together in one column), in program order. `nq` = number of quantum wires. -/
